@@ -502,6 +502,8 @@ class MarkdownNormalizer(Renderer):
         return result
 
     def render_thematic_break(self, _element: block.ThematicBreak) -> str:
+        # Reset the skip flag since we're not rendering a blank line
+        self._skip_next_blank_line = False
         result = f"{self._prefix}* * *\n"
         self._prefix = self._second_prefix
         return result
@@ -695,9 +697,13 @@ class MarkdownNormalizer(Renderer):
         Render a GFM table. Does not do whitespace padding and normalizes
         the delimiters to use three dashes consistently.
         """
+        # Reset the skip flag since we're not rendering a blank line
+        self._skip_next_blank_line = False
+
+        # Every row carries the prefix of the enclosing quote or list item.
         lines: list[str] = []
         head, *body = element.children
-        lines.append(self.render(head))
+        lines.append(self._prefix + self.render(head))
 
         normalized_delimiters: list[str] = []
         for delimiter in element.delimiters:
@@ -715,9 +721,11 @@ class MarkdownNormalizer(Renderer):
                 normalized_delimiter = "---"
             normalized_delimiters.append(normalized_delimiter)
 
-        lines.append(f"| {' | '.join(normalized_delimiters)} |\n")
+        lines.append(f"{self._second_prefix}| {' | '.join(normalized_delimiters)} |\n")
         for row in body:
-            lines.append(self.render(row))
+            lines.append(self._second_prefix + self.render(row))
+        self._prefix = self._second_prefix
+        self._suppress_item_break = False
         return "".join(lines)
 
     def render_table_row(self, element: gfm_elements.TableRow) -> str:
